@@ -9,6 +9,9 @@ def _tag(line, out):
     fmt = line.split(" ", 1)[0]
     res = out.split(" ", 1)[0]
     t = fmt + ":" + res
+    n = line.count(" e:")
+    if n >= 12:
+        t += "+entries>=" + ("1000" if n >= 1000 else "256" if n >= 256 else "100" if n >= 100 else "32" if n >= 32 else "12")
     if " w:" in line:
         t += "+write-fault"
     i = line.rfind(" v:")
@@ -71,10 +74,32 @@ def run(ctx):
         "err with nothing created; the harness also counts its open descriptors around the call (FD-LEAK = the "
         "archive file was not closed)",
     ]
+    ctx.modelled += [
+        "hardening (tools/HARDENING.md): entry counts 12…1000, directory depth up to 64, 255-byte components and paths of "
+        "~3.9 KB (PAX path records / GNU long names / the ustar 100- and 155-byte splits), names with control "
+        "characters, backslashes, trailing dots, only dots, invalid UTF-8 and NFC/NFD pairs; payloads 0, 1, 511…513, "
+        "32 KiB±1, 64 KiB(+1), 70000, 1 MiB; modes and masks with bits beyond 0o7777 (up to 2^40, 2^32-1); skipped tar "
+        "type flags fifo / char / block / contiguous-with-payload / PAX global header; zip directory bit with payload; "
+        "faults at every entry position: tar payload cut, bad-checksum header, stream ending inside a header, zip CRC "
+        "mismatch, zip declared size one more / one less than the payload, write limit 0…64 KiB, missing / cut archive "
+        "file; the same archive extracted twice into one destination (r:2); pre-existing read-only and untraversable "
+        "directories and files",
+        "area dstlink (implementation-side metamorphic oracle, no Lean model: the lexical model does not resolve a "
+        "linked root): the destination is a symbolic link to a sibling directory; result and whole tree must equal those "
+        "of the same archive extracted into that directory itself (archives with an entry naming the destination itself "
+        "are exempt: the guard refuses a linked root)",
+        "a call that does not return within 20 s is reported as `hang` and the rest of that stream is skipped; panics are "
+        "reported as `panic`",
+        "NOT exercised: components longer than NAME_MAX / paths beyond PATH_MAX and names containing NUL (the kernel "
+        "refuses them with ENAMETOOLONG / EINVAL, which the guard turns into an error; the model has no such limits), "
+        "sparse tar entries and zip64 sizes (archive/tar cannot write the former, the latter needs 4 GiB payloads)",
+    ]
     ctx.lean(props=["Props.C19"], drivers=["drv_c19"])
     ctx.harness("./cmd/c19")
     ctx.diff(area="extract", driver="drv_c19", n={"quick": 10000, "thorough": 150000},
-             trivial=lambda l, o: " e:" not in l, tagger=_tag,
+             trivial=lambda l, o: " e:" not in l, tagger=_tag, timeout=(240 if ctx.tier == "quick" else 900),
              theorem="C19.extract_contained / extract_wf / ensureNoSymlinks_spec / payload_error_propagates / "
                      "extract_reproduces / extract_reproduces_zip / extract_error_iff are about the model; "
                      "impl != model on this archive")
+    ctx.impl_oracle("dstlink", {"quick": 700, "thorough": 12000}, label="destination is a symbolic link to a directory",
+                    timeout=(240 if ctx.tier == "quick" else 900))
